@@ -1,12 +1,17 @@
 import OsmoVerif.Model.TdmaSched
 import OsmoVerif.Driver.Util
 /-
-`ts.run CUR op ; op ; ...` — one line is a whole history on a zero-initialised `l1s.tdma_sched`
-with `cur_bucket = CUR` (< ring depth).  Ops:
-  sched OFF CB P1 P2 P3 PRIO        CB = callback id 0..12 or `E` (= &tdma_end_set)     -> r<rc>
+`ts.run CUR [def ... ;]* op ; op ; ...` — one line is a whole history on a zero-initialised
+`l1s.tdma_sched` with `cur_bucket = CUR` (< ring depth).  Scripts first (at most one per callback id):
+  def ID call | call | ...          the scheduler calls callback ID makes from inside when it is invoked,
+                                    call = `sched OFF CB P1 P2 P3 PRIO` | `set OFF P3 <elem>...`
+                                    (at most 16 calls, at most 64 elements per set)        -> k
+Ops:
+  sched OFF CB P1 P2 P3 PRIO        CB = callback id 0..24 or `E` (= &tdma_end_set)     -> r<rc>
   set OFF P3 <elem>...              elem = `i CB P1 P2 PRIO FLAGS` | `F` (SCHED_END_FRAME())
                                     | `E` (SCHED_END_SET()); at least one `E` required     -> r<rc>
-  exec                              -> x<rc>[:id,p1,p2,p3,ret]...   (callbacks in invocation order)
+  exec                              -> x<rc>[:id,p1,p2,p3,ret[/rc]...]...   (callbacks in invocation order,
+                                       each followed by the return values of the calls it made from inside)
   adv -> a      reset -> z      flags -> f<tdma_sched_flag_scan()>      dump -> d<n0,n1,...>
 The answer is the space-joined list of the per-op tokens.  Same protocol as harness/c/c08_harness.c.
 -/
@@ -14,7 +19,7 @@ namespace OsmoVerif.Driver.TdmaSched
 open OsmoVerif OsmoVerif.TdmaSched OsmoVerif.Driver
 
 /-- the fixed callback table of the harness: what callback `id` returns -/
-def harnessEnv : Env := fun id p1 p2 p3 =>
+def harnessRet : Nat → Nat → Nat → Nat → Int := fun id p1 p2 p3 =>
   if id ≤ 7 then 0
   else if id = 8 then 1
   else if id = 9 then Int.ofNat p1
@@ -23,7 +28,9 @@ def harnessEnv : Env := fun id p1 p2 p3 =>
   else if id = 12 then (if p3 % 2 = 1 then -5 else 0)
   else 0
 
-def numCallbacks : Nat := 13
+def numCallbacks : Nat := 25
+def maxScriptCalls : Nat := 16
+def maxScriptSet : Nat := 64
 
 def cbOfKind (k : Nat) : Cb := if k = 0 then .null else if k = 1 then .endSet else .fn 0
 
@@ -51,18 +58,48 @@ inductive Cmd where
   | op (o : Op)
   | flags
   | dump
+  | defScript (id : Nat) (calls : List Call)
 
-def parseCmd? : List String → Option Cmd
+/-- split a token list at the tokens equal to `sep` -/
+def splitAt (sep : String) (toks : List String) : List (List String) :=
+  let r := toks.foldr (fun t (acc : List String × List (List String)) =>
+    if t = sep then ([], acc.1 :: acc.2) else (t :: acc.1, acc.2)) ([], [])
+  r.1 :: r.2
+
+/-- `sched ...` / `set ...`: the arguments of a scheduler call (as an op or inside a script) -/
+def parseCall? : List String → Option Call
   | ["sched", off, cb, p1, p2, p3, prio] => do
       let off ← parseNat? off
       let cb ← if cb = "E" then some Cb.endSet else parseCbId? cb
       let p1 ← parseNat? p1; let p2 ← parseNat? p2; let p3 ← parseNat? p3
       let prio ← parseInt? prio
-      pure (.op (.schedule off cb p1 p2 p3 prio))
+      pure (.schedule off cb p1 p2 p3 prio)
   | "set" :: off :: p3 :: elems => do
       let off ← parseNat? off; let p3 ← parseNat? p3
       let items ← parseSet? elems
-      if elems.contains "E" then pure (.op (.scheduleSet off items p3)) else none
+      if elems.contains "E" then pure (.scheduleSet off items p3) else none
+  | _ => none
+
+def callSetLen : Call → Nat
+  | .scheduleSet _ set _ => set.length
+  | _ => 0
+
+def parseCmd? : List String → Option Cmd
+  | "sched" :: rest => do
+      match ← parseCall? ("sched" :: rest) with
+      | .schedule off cb p1 p2 p3 prio => pure (.op (.schedule off cb p1 p2 p3 prio))
+      | .scheduleSet off set p3 => pure (.op (.scheduleSet off set p3))
+  | "set" :: rest => do
+      match ← parseCall? ("set" :: rest) with
+      | .schedule off cb p1 p2 p3 prio => pure (.op (.schedule off cb p1 p2 p3 prio))
+      | .scheduleSet off set p3 => pure (.op (.scheduleSet off set p3))
+  | "def" :: id :: rest => do
+      let id ← parseNat? id
+      if id ≥ numCallbacks then none
+      let calls ← if rest.isEmpty then some [] else (splitAt "|" rest).mapM parseCall?
+      if calls.length > maxScriptCalls then none
+      if calls.any (fun c => callSetLen c > maxScriptSet) then none
+      pure (.defScript id calls)
   | ["exec"] => some (.op .execute)
   | ["adv"] => some (.op .advance)
   | ["reset"] => some (.op .reset)
@@ -70,16 +107,12 @@ def parseCmd? : List String → Option Cmd
   | ["dump"] => some .dump
   | _ => none
 
-/-- split a token list at the `;` tokens -/
-def splitSemi (toks : List String) : List (List String) :=
-  let r := toks.foldr (fun t (acc : List String × List (List String)) =>
-    if t = ";" then ([], acc.1 :: acc.2) else (t :: acc.1, acc.2)) ([], [])
-  r.1 :: r.2
-
-def renderCall (env : Env) (it : Item) : String :=
+def renderCall (env : Env) (itr : Item × List Int) : String :=
+  let it := itr.1
   match it.cb with
   | .fn id => ":" ++ ",".intercalate
-      [toString id, toString it.p1, toString it.p2, toString it.p3, toString (env id it.p1 it.p2 it.p3)]
+      [toString id, toString it.p1, toString it.p2, toString it.p3, toString (env.ret id it.p1 it.p2 it.p3)]
+      ++ String.join (itr.2.map (fun rc => "/" ++ toString rc))
   | _ => ""
 
 def faultName : Fault → String
@@ -102,16 +135,24 @@ def runCmds (env : Env) : Sched → List Cmd → List String → Except Fault (L
         | .scheduleSet .. => "r" ++ toString out.rc
         | .advance => "a"
         | .reset => "z"
-        | .execute => "x" ++ toString out.rc ++ String.join (out.ran.map (renderCall env))
+        | .execute => "x" ++ toString out.rc ++ String.join ((out.ran.zip out.rets).map (renderCall env))
       runCmds env s' rest (tok :: acc)
+  | _, .defScript .. :: _, _ => .error .oob      -- not reached: scripts are taken off the front by `handle`
 
 /-- `ts.*` verbs -/
 def handle : List String → Option String
   | "ts.run" :: cur :: toks => do
       let cur ← parseNat? cur
       if cur ≥ Gen.tdmaNumFrames then none
-      let cmds ← (splitSemi toks).mapM parseCmd?
-      match runCmds harnessEnv (init cur) cmds [] with
+      let cmds ← (splitAt ";" toks).mapM parseCmd?
+      -- the scripts come first; at most one per id
+      let defs := cmds.takeWhile (fun c => match c with | .defScript .. => true | _ => false)
+      let rest := cmds.drop defs.length
+      if rest.any (fun c => match c with | .defScript .. => true | _ => false) then none
+      let scripts := defs.filterMap (fun c => match c with | .defScript id calls => some (id, calls) | _ => none)
+      let ids := scripts.map (·.1)
+      if ids.eraseDups.length ≠ ids.length then none
+      match runCmds ⟨harnessRet, scripts⟩ (init cur) rest (defs.map (fun _ => "k")).reverse with
       | .ok out => pure (" ".intercalate out)
       | .error f => pure ("fault:" ++ faultName f)
   | _ => none
